@@ -249,6 +249,15 @@ theorem go_args_alias_witness :
     read (runOps false [.write 0 0 2] (stepOp false m (.call 0 [0]))) 1 0 = 2 ∧
     read (runOps true [.write 0 0 2] (stepOp true m (.call 0 [0]))) 1 0 = 1 := by decide
 
+/-- WITNESS (F08-2): a go statement on a BINARY function goes through callBin, whose go branch does not copy
+    (the fact is read from the source): the goroutine sees the parent's later assignment -/
+theorem callbin_go_args_witness :
+    Generated.C08.goFacts.callBinGoArgsCopied = false ∧
+    (let m : Mem := { cells := [10], owner := [0], frames := [[0]] }
+     read (runOps Generated.C08.goFacts.callBinGoArgsCopied [.write 0 0 20]
+            (stepOp Generated.C08.goFacts.callBinGoArgsCopied m (.call 0 [0]))) 1 0 = 20) := by
+  rw [gofacts_tie]; decide
+
 theorem stepOp_frames_other (cp : Bool) (m : Mem) (op : Op) (k : Nat) (hk : k < m.frames.length) (hne : op.frame ≠ k) :
     (stepOp cp m op).frames[k]? = m.frames[k]? ∧ k < (stepOp cp m op).frames.length := by
   cases op with
